@@ -108,7 +108,7 @@ def main(argv=None):
     rc = 0
     for p in props:
         rc = max(rc, run_property(p, a.tier, rule, a.repo,
-                                  write=(rule is None)))
+                                  write=(rule is None and not os.environ.get("VERIF_NO_EVIDENCE"))))
     return rc
 
 
